@@ -203,6 +203,45 @@ func C04(run *mon.Run) {
 				run.Violate("C04:sk-pk-consistency:"+kind, "public key of the aggregated private key differs from the aggregated public keys", rep)
 			}
 			run.Eval(1)
+			// the same with FRESH private key objects of which only a subset ever had PublicKey() called:
+			// whatever is cached lazily in the inputs must not change the aggregated key's public key
+			{
+				var masks []int
+				if len(ks) <= 4 {
+					for m := 0; m < 1<<len(ks); m++ {
+						masks = append(masks, m)
+					}
+				} else {
+					all := 1<<len(ks) - 1
+					masks = []int{0, all, 1 << (len(ks) - 1), all &^ 1, 1, all &^ (1 << (len(ks) - 1)), r.IntN(all + 1), r.IntN(all + 1)}
+				}
+				for _, m := range masks {
+					fresh := make([]crypto.PrivateKey, len(ks))
+					for i, k := range ks {
+						if k.Sign() == 0 {
+							fresh[i] = sks[i] // the zero key cannot be decoded: reuse the object
+							continue
+						}
+						fresh[i] = skFromInt(k)
+						if m>>i&1 == 1 {
+							_ = fresh[i].PublicKey()
+						}
+					}
+					var a crypto.PrivateKey
+					var e error
+					if m%2 == 0 {
+						a, e = crypto.AggregateBLSPrivateKeys(fresh)
+					} else {
+						a, e = nestAggregateSks(r, fresh)
+					}
+					run.Eval(1)
+					if e != nil || !bytes.Equal(a.PublicKey().Encode(), wantPk) || !a.PublicKey().Equals(aggPk) {
+						run.Violate("C04:sk-pk-consistency:cached-subset", fmt.Sprintf("public key of the aggregated private key differs from the aggregated public keys when PublicKey() had been called on the inputs selected by mask %b only (err %v)", m, e), rep)
+						break
+					}
+				}
+				run.Shape("cached-subset|" + nb)
+			}
 			// order independence (all permutations for small N, random otherwise)
 			var perms [][]int
 			if len(ks) <= 4 {
